@@ -20,7 +20,8 @@ from symex import show, walk, place_ty
 EXPLANATION = __doc__
 TRUSTED = ["rustc / extractor", "documented panic conditions of std / num-bigint / hmac / sha1 / rand APIs (allow-list in rules/c14.py)", "HMAC accepts keys of any length (Hmac::new_from_slice never fails)", "allocation failure and OS RNG failure are out of scope"]
 NOT_DECIDED = ["panics inside dependencies other than their documented preconditions", "srp-fast-math (rug) preconditions: configuration cannot be built here"]
-FULL_FLOORS = {"entry-points": 1, "bounds": 100, "overflow": 6, "div-by-zero": 5, "range-index": 8, "copy-len": 1, "reduced32": 4, "unwrap": 5, "bigint-precondition": 3, "swap": 2, "step-by": 2}
+# floors guard against vacuity (anchors lost), not against legitimate refactorings that remove sites
+FULL_FLOORS = {"entry-points": 1, "bounds": 60, "overflow": 4, "div-by-zero": 3, "range-index": 4, "copy-len": 1, "reduced32": 4, "unwrap": 4, "bigint-precondition": 3, "swap": 1}
 DEFAULT_FEATURES = {"srp-default-math", "tbc-header", "wrath-header", "integrity"}
 
 
@@ -29,13 +30,13 @@ def floors_for(feats):
     configurations (thorough tier) contain fewer functions: the core SRP obligations remain"""
     if DEFAULT_FEATURES <= set(feats):
         return FULL_FLOORS
-    return {"entry-points": 1, "bounds": 30, "overflow": 4, "div-by-zero": 3, "range-index": 4, "copy-len": 1, "reduced32": 4, "bigint-precondition": 3, "step-by": 2}
+    return {"entry-points": 1, "bounds": 20, "overflow": 2, "div-by-zero": 2, "range-index": 3, "copy-len": 1, "reduced32": 4, "bigint-precondition": 3}
 
 PEER_MODULES = ("server", "client", "vanilla_header", "tbc_header", "wrath_header", "normalized_string")
 
 # calls that do not panic for any argument (documented), by resolved name or prefix
 NO_PANIC_EXACT = {
-    "<D as digest::Digest>::chain_update", "<D as digest::Digest>::finalize", "<D as digest::Digest>::new", "<D as digest::Digest>::update", "digest::FixedOutput::finalize_fixed",
+    "<D as digest::Digest>::chain_update", "<D as digest::Digest>::digest", "<D as digest::Digest>::finalize", "<D as digest::Digest>::new", "<D as digest::Digest>::update", "digest::FixedOutput::finalize_fixed",
     "<T as digest::Mac>::finalize", "<T as digest::Mac>::update", "<T as digest::Mac>::new_from_slice", "<T as digest::Mac>::chain_update",
     "<T as std::convert::Into<U>>::into", "<T as std::convert::TryInto<U>>::try_into", "std::convert::Into::into", "std::convert::AsRef::as_ref",
     "<num_bigint::BigInt as std::cmp::PartialEq>::eq", "num_bigint::BigInt::from_bytes_le", "num_bigint::BigInt::to_bytes_le",
@@ -44,7 +45,7 @@ NO_PANIC_EXACT = {
     "<std::result::Result<T, F> as std::ops::FromResidual<std::result::Result<std::convert::Infallible, E>>>::from_residual",
     "<I as std::iter::IntoIterator>::into_iter", "core::slice::iter::<impl std::iter::IntoIterator for &'a mut [T]>::into_iter", "core::slice::iter::<impl std::iter::IntoIterator for &'a [T]>::into_iter",
     "std::iter::Iterator::take_while", "std::iter::Iterator::count", "std::iter::Iterator::map", "std::iter::Iterator::filter", "std::iter::Iterator::rev", "std::iter::Iterator::take", "std::iter::Iterator::chain", "std::iter::Iterator::all", "std::iter::Iterator::any", "std::iter::Iterator::position", "std::iter::Iterator::collect", "std::iter::Iterator::copied", "std::iter::Iterator::cloned", "std::iter::Iterator::fold", "std::iter::Iterator::last", "std::iter::Iterator::nth", "std::iter::Iterator::sum", "std::iter::Iterator::find", "std::iter::Iterator::by_ref",
-    "core::slice::<impl [T]>::first", "core::slice::<impl [T]>::last", "core::slice::<impl [T]>::get", "core::slice::<impl [T]>::get_mut", "core::slice::<impl [T]>::split_first", "core::slice::<impl [T]>::starts_with", "core::slice::<impl [T]>::ends_with", "core::slice::<impl [T]>::contains", "core::slice::<impl [T]>::reverse", "core::slice::<impl [T]>::fill", "core::slice::<impl [T]>::to_vec", "core::slice::<impl [T]>::as_ptr", "core::slice::<impl [T]>::chunks_exact", "core::slice::<impl [T]>::iter().copied",
+    "core::slice::<impl [T]>::first", "core::slice::<impl [T]>::last", "core::slice::<impl [T]>::get", "core::slice::<impl [T]>::get_mut", "core::slice::<impl [T]>::split_first", "core::slice::<impl [T]>::starts_with", "core::slice::<impl [T]>::ends_with", "core::slice::<impl [T]>::contains", "core::slice::<impl [T]>::reverse", "core::slice::<impl [T]>::fill", "core::slice::<impl [T]>::to_vec", "core::slice::<impl [T]>::as_ptr",
     "std::option::Option::<T>::map", "std::option::Option::<T>::map_or", "std::option::Option::<T>::is_some", "std::option::Option::<T>::is_none", "std::option::Option::<T>::unwrap_or", "std::option::Option::<T>::unwrap_or_default", "std::option::Option::<T>::ok_or", "std::result::Result::<T, E>::map", "std::result::Result::<T, E>::map_err", "std::result::Result::<T, E>::is_ok", "std::result::Result::<T, E>::is_err", "std::result::Result::<T, E>::ok", "std::result::Result::<T, E>::and_then",
     "std::iter::Iterator::enumerate", "std::iter::Iterator::zip", "std::iter::Iterator::skip", "std::iter::Iterator::cycle", "std::iter::Iterator::for_each", "std::iter::Iterator::next",
     "core::slice::<impl [T]>::iter", "core::slice::<impl [T]>::iter_mut", "core::slice::<impl [T]>::len", "core::slice::<impl [T]>::is_empty",
@@ -59,6 +60,7 @@ NO_PANIC_EXACT = {
     "std::clone::Clone::clone", "std::default::Default::default",
 }
 NO_PANIC_PREFIX = (
+    "<&u8 as std::ops::BitXor", "<u8 as std::ops::BitXor", "<&u8 as std::ops::BitAnd", "<u8 as std::ops::BitAnd", "<&u8 as std::ops::BitOr", "<u8 as std::ops::BitOr", "<std::iter::Zip<", "<std::slice::ChunksExact<",
     "std::convert::num::<impl std::convert::From<", "core::convert::num::<impl std::convert::From<", "<std::iter::Map<", "<std::iter::TakeWhile<", "<std::iter::Rev<", "<std::iter::Take<", "<std::iter::Chain<", "<std::iter::Copied<", "<std::iter::Cloned<", "<std::slice::ChunksExact<", "<std::ops::Range<", "std::iter::range::<impl std::iter::Iterator for std::ops::Range<",
     "core::num::<impl u", "core::num::<impl i", "std::char::methods::<impl char>::", "<std::slice::Iter", "<std::slice::IterMut", "<std::iter::Enumerate<", "<std::iter::Zip<", "<std::iter::StepBy<", "<std::iter::Skip<",
     "num_bigint::bigint::addition::", "num_bigint::bigint::subtraction::", "num_bigint::bigint::multiplication::", "num_bigint::bigint::convert::",
@@ -298,6 +300,10 @@ def call_obligation(ctx, rep, world, pr, p, b, bi, t, info, n_site, r32_sinks):
         if not ok and p == "rc4::Rc4::key_scheduling_algorithm::{closure#1}":
             ok, just = ksa_premise(ctx)
         rep.check(ok, "swap", p, "swap#%d" % seq, "indices [%s,%s], [%s,%s] < len %s %s" % (ra[0], ra[1], rb[0], rb[1], ln[0], just), "swap index may be out of bounds: [%s,%s] / [%s,%s] vs length [%s,%s]" % (ra[0], ra[1], rb[0], rb[1], ln[0], ln[1]), b.loc(bi))
+        return
+    if short in ("chunks_exact", "chunks", "windows") and "slice" in name:
+        ok, why = pr.prove_nonzero(args[1], bi)
+        rep.check(ok, "step-by", p, "%s#%d" % (short, seq), "chunk size " + why, "%s(0) would panic: %s" % (short, why), b.loc(bi))
         return
     if short == "step_by":
         ok, why = pr.prove_nonzero(args[1], bi)
